@@ -54,7 +54,7 @@ def sany(module):
     return True
 
 
-def model_check(module, cfg_text, workers=NCPU, timeout=3600, extra=(), coverage=False, tag="mc"):
+def model_check(module, cfg_text, workers=NCPU, timeout=3600, extra=(), coverage=False, tag="mc", env=None):
     """Run TLC on spec/<module>.tla with the given cfg text. Returns the parsed result
     (tlcout.parse) plus `raw` and `wall_s`."""
     wd = workdir(tag)
@@ -67,7 +67,7 @@ def model_check(module, cfg_text, workers=NCPU, timeout=3600, extra=(), coverage
             cmd += ["-coverage", "1"]
         cmd += list(extra) + [module + ".tla"]
         t0 = time.time()
-        rc, out = _run(cmd, cwd=SPEC, timeout=timeout)
+        rc, out = _run(cmd, cwd=SPEC, timeout=timeout, env=env)
         res = tlcout.parse(out)
         res["raw"] = out
         res["rc"] = rc
